@@ -8,7 +8,7 @@ TARGETS = ['pytezos.michelson.repl.Interpreter.execute', 'pytezos.michelson.type
 STUBS = ['michelson_to_micheline (PLY parser) inside repl.py -> table lookup cell-name -> Micheline (cells are built as Micheline so that their integer leaves can be symbolic); '
          'the parser itself is C18', 'format_stdout -> no-op']
 BOUNDS = {'quick': 'a session skeleton of 10 successful cells (declarations, EMPTY_BIG_MAP, UPDATE with symbolic values, DIP-protected stack manipulation, removal, BEGIN, two COMMITs) with '
-                   'up to 2 failing cells inserted at solver-chosen positions; a failing cell is a solver-chosen prefix (every instruction position) of one of 6 cell bodies followed by FAILWITH, '
+                   'up to 2 failing cells inserted at solver-chosen positions; a failing cell is a solver-chosen prefix (every instruction position) of one of 7 cell bodies followed by FAILWITH, '
                    'optionally wrapped in DIP',
           'thorough': 'up to 3 failing cells'}
 OUTSIDE = ['cells outside the alphabet', 'parser failures (text is not modelled)']
@@ -56,6 +56,8 @@ def cells(val):
         [P('PUSH', INT, lit('p')), P('PUSH', INT, lit('q')), P('ADD'), P('DROP')],
         [P('EMPTY_BIG_MAP', NAT, INT), P('EMPTY_BIG_MAP', NAT, INT), P('DROP'), P('DROP')],
         [P('DROP_ALL')],
+        # registers an on-chain big_map (id 5) in the context, then allocates a fresh one
+        [P('BEGIN', P('Unit'), {'int': '5'}), P('CDR'), P('EMPTY_BIG_MAP', NAT, INT), P('DROP'), P('DROP')],
     ]
     return skeleton, bodies
 
@@ -247,7 +249,7 @@ def obligations(tier):
     q = tier == 'quick'
     obs = []
     obs.append(Ob('session/failing-cells=1', 'bvx', sym_session, conc_session, {'nfail': 1}, timeout=300 if q else 3000,
-                  bounds='1 failing cell: position, body (6), failure point (every instruction position) and DIP wrapping chosen by the solver; all pushed values symbolic',
+                  bounds='1 failing cell: position, body (7), failure point (every instruction position) and DIP wrapping chosen by the solver; all pushed values symbolic',
                   targets=TARGETS))
     for nfail in ((2,) if q else (2, 3)):
         for pos0 in range(0, 14, 1 if not q else 2):
